@@ -15,7 +15,7 @@ LEAN = os.path.join(VERIF, "lean")
 BUILD = os.path.join(VERIF, ".build")
 HARNESS = os.path.join(VERIF, "harness")
 ALLOWED_AXIOMS = {"propext", "Classical.choice", "Quot.sound"}
-FORBIDDEN = re.compile(r"\bsorry\b|\badmit\b|^\s*axiom\s|native_decide|bv_decide|implemented_by|\bunsafe\s|maxHeartbeats\s+0\b")
+FORBIDDEN = re.compile(r"\bsorry\b|(?:^|[\s;(])admit\s*(?:$|[;)\]])|^\s*axiom\s|native_decide|bv_decide|implemented_by|\bunsafe\s|maxHeartbeats\s+0\b")
 
 GOENV = dict(os.environ)
 GOENV.update({"GOFLAGS": "-mod=mod", "GOPROXY": "off", "GOTOOLCHAIN": os.environ.get("GOTOOLCHAIN", "auto")})
